@@ -27,7 +27,7 @@ CLAIMED = {
  ),
  "C08": dict(
    category="exploration",
-   text="Refinement of a stateful implementation against a small executable reference model, checked step by step: seeded operation histories (4..64 events, 8 registers; construction with values below and above m, zero/one, add/sub/neg/double/mul/square/halve in every operator and assign form and through the Monty / Square traits, a long-lived multiplier object reused across events, select/swap, copy_montgomery_from, to/from_montgomery, clone/drop with shared Arc params, const -> runtime conversion, zeroize) run in lock-step on ConstMontyForm, MontyForm and BoxedMontyForm for widths 1,2,3,4,6,8,16,32 (boxed alone at every width 1..=33) and adversarial moduli (1, 3, 2^BITS-1, 2^(BITS-1)+1, ~2^BITS/3, ~2^BITS/4, zero high limbs, 0..130 leading zero bits, sparse, seeded). A separate batch adds seam events inside the history: ConstMontyForm::try_random from scripted / failing RNG tapes, and persist/restore of registers through the serde seam with storage faults. After every event every touched register of every replica: stored form < m, retrieve == model, replicas agree, boxed precision. Parameter sets of all constructors are compared with each other and with their definitions.",
+   text="Refinement of a stateful implementation against a small executable reference model, checked step by step: seeded operation histories (4..64 events, 8 registers; construction with values below and above m, zero/one, add/sub/neg/double/mul/square/halve in every operator and assign form and through the Monty / Square traits, a long-lived multiplier object reused across events, pow / pow_bounded_exp / lincomb_vartime, inversion through the inherent methods, the Invert trait and one precomputed inverter object reused for three inversions in a row, select/swap (also across two moduli), copy_montgomery_from, to/from_montgomery, clone/drop with shared Arc params, const -> runtime conversion, zeroize) run in lock-step on ConstMontyForm, MontyForm and BoxedMontyForm for widths 1,2,3,4,6,8,16,32 (boxed alone at every width 1..=33) and adversarial moduli (1, 3, 2^BITS-1, 2^(BITS-1)+1, ~2^BITS/3, ~2^BITS/4, zero high limbs, 0..130 leading zero bits, sparse, seeded). A separate batch adds seam events inside the history: ConstMontyForm::try_random from scripted / failing RNG tapes, and persist/restore of registers through the serde seam with storage faults. After every event every touched register of every replica: stored form < m, retrieve == model, replicas agree, boxed precision. Parameter sets of all constructors are compared with each other and with their definitions.",
    design_ref="DESIGN.md section 4, C08",
    note="Trusted: num-bigint reference arithmetic, to_words()/from_words() bridge, the derived Debug rendering of MontyParams/BoxedMontyParams for private fields (parse failure = harness error, exit 2). The const replica only sees the compile-time modulus table. Sampling, not proof: the 'single conditional subtraction suffices' claim is exercised (probe: final-subtraction-needed) but not proven.",
    technique="deterministic simulation: lock-step operation-history refinement of three replicas against a Z/mZ reference model, with RNG-tape and persist/restore fault events inside the history",
